@@ -219,10 +219,10 @@ def normalized_index_expression(indices, shape, int_to_slice=False):
             if idx < 0:
                 idx += n
 
-            if idx >= n:
+            if idx < 0 or idx >= n:
                 raise IndexError('Index {} is out of bounds for axis '
                                  '{} with size {}.'
-                                 ''.format(idx, i, n))
+                                 ''.format(indices[i], i, n))
             if int_to_slice:
                 indices[i] = slice(idx, idx + 1)
 
